@@ -88,10 +88,12 @@ def make_case(idx, base, seed):
     style = idx % 7
     tgt = rng.random(n) < (0.5, 0.5, 0.8, 0.2, 0.5, 1.1, -1.0)[style]      # incl. all targets / all decoys
     lab = [(1 if t else (-1 if c["enc"] == "pm" else 0)) for t in tgt]
+    # the model's two out-of-range classes (too large / too small) are rendered with values that also alias a legal label
+    # in narrow integer types (255, 256, 257, 65537, -255, ...)
     if c["err"] == "lab2":
-        lab[int(rng.integers(0, n))] = 2
+        lab[int(rng.integers(0, n))] = [2, 255, 256, 257, 511, 65536, 65537, 1000][idx % 8]
     if c["err"] == "lab-3":
-        lab[int(rng.integers(0, n))] = -3
+        lab[int(rng.integers(0, n))] = [-3, -255, -256, -257, -65535, -2][idx % 6]
     c["lab"] = [int(v) for v in lab]
     cells = []
     for col, rcl in c["cells"]:
